@@ -80,31 +80,47 @@ def C08_wellformed_full : Prop :=
   ∀ (env : Env) (O : Oracle), FloatTextOk O → ∀ (root : String) (v : PVal) (bs : Bytes),
     encodeBytes env O root v = .ok bs → ∃ t, parse bs = some t
 
-/-- **Proved part (`_partial`)**: for every environment without `Any` fields, **every** message
-(representable or not: non-finite floats, out-of-range dates, undefined enum numbers, invalid
-UTF-8, two oneof members set, …) and every root: if the encoder returns bytes at all, the strict
-parser (`J5V.Json.parse`: exactly one RFC 8259 value, all containers closed, nothing but
-whitespace after it) accepts them, and the parsed tree renders back to the same bytes.
-`FloatTextOk O` is the only assumption on the oracle: `strconv.FormatFloat(v,'g',-1,bits)` of a
-finite value is a JSON number.
+/-- **Proved part (`_partial`)**: for **every** message (representable or not: non-finite floats,
+out-of-range dates, undefined enum numbers, invalid UTF-8, two oneof members set, …) and every root
+* of every environment without `Any` fields, and
+* of **every environment with `Any` fields**, provided every `j5_json` stored in the message (at
+  any depth, also inside the proto content of another `Any`) is a *recognised chunk*
+  (`PVal.chunksOk`: the specification-side oracle `O.chunk` knows these very bytes; `ChunkLaws O`:
+  what it knows is compact JSON as `json.Compact` or the codec itself writes it — `PTree.Enc`) —
+  that is the property's own quantifier "every stored `j5_json` is itself well-formed JSON", in the
+  compact form:
+if the encoder returns bytes at all, the strict parser (`J5V.Json.parse`: exactly one RFC 8259
+value, all containers closed, nothing but whitespace after it) accepts them, and the parsed tree
+renders back to the same bytes. `FloatTextOk O` is the only assumption on the text oracles:
+`strconv.FormatFloat(v,'g',-1,bits)` of a finite value is a JSON number. The proto content of an
+`Any` (`google.protobuf.Any`, or a j5 `Any` without `j5_json`) is encoded by the codec itself and
+needs no hypothesis.
 
-Missing for the full statement: `Any` values — the encoder inserts `j5_json` verbatim, so the
-statement needs "every `j5_json` is a JSON value" (with `j5_json = }` the output is
-`{…"value":}}`; a message like that is outside C01's representable messages). -/
-theorem C08_wellformed_partial (env : Env) (O : Oracle) (hna : env.noAny = true)
+Missing for the full statement, and the only gap left: caller-supplied `j5_json` bytes that are
+not JSON (the encoder inserts them verbatim: `C08_any_j5json_unchecked`), and well-formed
+`j5_json` that is *not compact* (whitespace, other escapes: the model has no lemma that the
+tokenizer reads a well-formed value the same way in any context). -/
+theorem C08_wellformed_partial (env : Env) (O : Oracle) (hC : ChunkLaws O)
     (hO : FloatTextOk O) (root : String) (v : PVal) (bs : Bytes)
+    (hg : env.noAny = true ∨ v.chunksOk O = true)
     (h : encodeBytes env O root v = .ok bs) : ∃ t, parse bs = some t ∧ t.render = bs := by
-  obtain ⟨t, _, hb, hp⟩ := encodeBytes_parses env O hna hO root v bs h
+  obtain ⟨t, _, hb, hp⟩ := encodeBytes_parses' env O hC hO root v bs hg h
   exact ⟨t, hp, hb.symm⟩
 
 /-- the strict parser returns exactly the tree the encoder built (numbers stay numbers, strings
-stay strings, member order and names as written) -/
-theorem C08_parse_is_encoder_tree (env : Env) (O : Oracle) (hna : env.noAny = true)
+stay strings, member order and names as written; a recognised `j5_json` chunk in parsed form) -/
+theorem C08_parse_is_encoder_tree (env : Env) (O : Oracle) (hC : ChunkLaws O)
     (hO : FloatTextOk O) (root : String) (v : PVal) (bs : Bytes)
+    (hg : env.noAny = true ∨ v.chunksOk O = true)
     (h : encodeBytes env O root v = .ok bs) :
     ∃ t, encodeTree env O root v = .ok t ∧ parse bs = some t := by
-  obtain ⟨t, ht, _, hp⟩ := encodeBytes_parses env O hna hO root v bs h
+  obtain ⟨t, ht, _, hp⟩ := encodeBytes_parses' env O hC hO root v bs hg h
   exact ⟨t, ht, hp⟩
+
+/-- the bytes the encoder model writes for a `j5_json` do not depend on the specification-side
+recogniser: recognised or not, they are the stored bytes -/
+theorem C08_chunk_bytes_verbatim (O : Oracle) (bs : Bytes) : (chunkNode O bs).render = bs :=
+  chunkNode_render O bs
 
 /-! ## the `Any` / `j5_json` gap (tree level, machine checked)
 
@@ -113,7 +129,7 @@ theorem C08_parse_is_encoder_tree (env : Env) (O : Oracle) (hna : env.noAny = tr
 verbatim (`PTree.raw`), the bytes are `{"a":{"!type":"t","value":}}}` — and the chunk is not a JSON
 value. (That the *whole* byte string is rejected by the strict parser is not evaluated here: kernel
 evaluation of `parse` on 30 bytes does not terminate in reasonable memory; the chunk-level fact
-below is what makes `C08_wellformed_partial` need `Env.noAny`. Such a message is outside C01's
+below is what makes `C08_wellformed_partial` need `chunksOk` for environments with `Any`. Such a message is outside C01's
 representable messages, so this is not a violation of C08 as stated.) -/
 
 def anyEnv : Env :=
@@ -144,7 +160,8 @@ def C08_conforms_full : Prop :=
 
 /-- **C08_conforms (`_partial` only in the class of schemas)**: for every `Env.flat` environment
 (flattened objects, exposed oneofs, anonymous proto oneofs, wrapper oneofs, enums, arrays / maps of
-scalars / enums / objects / oneofs; no `Any`) and every representable message: the bytes
+scalars / enums / objects / oneofs, j5 `Any` properties holding recognised `j5_json`) and every
+representable message: the bytes
 `Codec.ProtoToJSON` returns are one well-formed JSON document whose tree (as the strict parser
 reads it) is the documented representation of the message:
 * an object has one member per *set* property, in schema order, named by the property's JSON name;
@@ -157,17 +174,24 @@ reads it) is the documented representation of the message:
   zero-padded dates), enums are the short option name.
 `OracleWire` (the shape of `time.Format`) is used for timestamps only.
 
-Missing for `C08_conforms_full`: `Any` (its shape alone is `C08_any_shape`); an exposed oneof
-inlined from a flattened object. -/
+* a j5 `Any` is `{"!type": typeName, "value": …}` (`Wire.Conforms.any`; the value itself is the
+  stored `j5_json`, not constrained further).
+
+Missing for `C08_conforms_full`: `google.protobuf.Any` / `Any` with proto content (shape alone:
+`C08_any_shape`); an exposed oneof inlined from a flattened object. -/
 theorem C08_conforms_partial (c : Cfg) (hs : c.env.flat = true) (L : OracleLaws c.O)
-    (W : OracleWire c.O) (root : String) (m : Fields) (bs : Bytes)
+    (W : OracleWire c.O) (hC : ChunkLaws c.O) (root : String) (m : Fields) (bs : Bytes)
     (hok : valOk c.env c.O (.object root) (.msg m) = true ∨
       valOk c.env c.O (.oneof root) (.msg m) = true)
     (henc : encodeBytes c.env c.O root (.msg m) = .ok bs) :
     ∃ t, parse bs = some t ∧ Wire.RootConforms c.env c.O root m t := by
   obtain ⟨t, ht, hc⟩ := conforms_tree_flat c hs L W root m hok
-  obtain ⟨t', ht', _, hp⟩ := encodeBytes_parses c.env c.O (flat_noAny c.env hs)
-    (floatTextOk_of_laws c.O L) root (.msg m) bs henc
+  have hch : (PVal.msg m).chunksOk c.O = true := by
+    rcases hok with hok | hok
+    · exact valOk_chunksOk _ _ _ _ hok
+    · exact valOk_chunksOk _ _ _ _ hok
+  obtain ⟨t', ht', _, hp⟩ := encodeBytes_parses' c.env c.O hC
+    (floatTextOk_of_laws c.O L) root (.msg m) bs (Or.inr hch) henc
   rw [ht] at ht'; cases ht'
   exact ⟨t, hp, hc⟩
 
